@@ -17,7 +17,10 @@
 (* values (all keys are <<string, number, string>> so TLC can compare them):   *)
 (*   <<"cell",off,"raw">>  backing word of the cell at offset off: the storage *)
 (*                         of a default Cell(), or the raw word a BitFieldCell *)
-(*                         keeps besides its slots                             *)
+(*                         keeps besides its slots.  SPARSE: the key exists    *)
+(*                         once the word has been written; absent = 0 (every   *)
+(*                         backing word starts as 0 and nothing but a write to *)
+(*                         its own offset ever changes it)                     *)
 (*   <<"timer",i,f>>       scale mode pause mu start_low start_high            *)
 (*                         ctr_low ctr_high (the MMIO mirror)  cnt_hi cnt_lo   *)
 (*                         (Timer::counter, not readable through MMIO)         *)
@@ -44,8 +47,6 @@
 EXTENDS Naturals, Sequences, FiniteSets, TLC, Bitwise
 
 CONSTANTS
-  AllCells,              \* TRUE: a backing word for each of the 0x800 offsets (trace validation);
-                         \* FALSE: only documented offsets + SampleOffs (model checking)
   FixedWindowRaw,        \* FALSE = as pinned: the bits of 0x1DA outside its three slots live in ONE
                          \*   BitFieldCell word shared by the eight DMA channels;
                          \* TRUE  = proposed repair: kept per channel
@@ -228,8 +229,9 @@ DevKeys ==
   \cup { ReqK, K("icu", 0, "venable") } \cup { K("icu", i, "enable") : i \in 0..2 }
   \cup { K("icu", i, f) : i \in 0..15, f \in { "vlow", "vhigh", "vctx" } }
   \cup { K("bt", i, f) : i \in 0..1, f \in { "clock", "enable", "empty", "full", "qlen" } }
-CellOffs == IF AllCells THEN AllOffs ELSE DocOffs \cup SampleOffs
-Keys     == DevKeys \cup { CellK(o) : o \in CellOffs }
+Keys     == DevKeys                      \* of a fresh object; cell keys join as they are written
+CellGet(s, o)    == IF CellK(o) \in DOMAIN s THEN s[CellK(o)] ELSE 0
+CellSet(s, o, v) == IF CellK(o) \in DOMAIN s THEN [s EXCEPT ![CellK(o)] = v] ELSE s @@ (CellK(o) :> v)
 
 \* value of a key in a freshly constructed Teakra (member initialisers); the ICU vector arrays have
 \* no initialiser at all (indeterminate until written: see FreshWith)
@@ -256,7 +258,7 @@ FreshWith(iv) == Tab([k \in Keys |-> IF k[1] = "icu" /\ k[3] = "vlow"  THEN iv[1
 ResetKey(k) == \/ k[1] \in { "timer", "miu", "ahbm", "dma", "dmac", "bt" }
                \/ (k[1] = "apbp" /\ k[3] \notin { "dis0", "dis1", "dis2" })
 ResetEffect(s) == Tab([k \in DOMAIN s |-> IF ResetKey(k) THEN FreshVal(k) ELSE s[k]])
-SurvivesReset  == { k \in Keys : ~ ResetKey(k) }
+SurvivesReset  == { k \in Keys \cup { CellK(o) : o \in AllOffs } : ~ ResetKey(k) }
 
 Ok(s)    == [s |-> s, out |-> "ok"]
 Abort(s) == [s |-> s, out |-> "assert"]
@@ -296,7 +298,9 @@ SigOf(sem, mask) == IF AndNot(sem, mask) # 0 THEN 1 ELSE 0
 ResKey(s, key) == IF key[1] = "dmawin" THEN <<"dma", s[ActiveK], key[3]>> ELSE key
 WinOk(s)       == s[ActiveK] < 8
 \* raw word of the BitFieldCell at offset o
-RawKey(s, o)   == IF o = \h1DA /\ FixedWindowRaw THEN <<"dma", s[ActiveK], "cfg_raw">> ELSE CellK(o)
+WinRaw(o)      == o = \h1DA /\ FixedWindowRaw
+RawGet(s, o)   == IF WinRaw(o) THEN s[<<"dma", s[ActiveK], "cfg_raw">>] ELSE CellGet(s, o)
+RawSet(s, o, v) == IF WinRaw(o) THEN [s EXCEPT ![<<"dma", s[ActiveK], "cfg_raw">>] = v] ELSE CellSet(s, o, v)
 
 -----------------------------------------------------------------------------
 (* Write(s, o, v): MMIORegion::Write(o, v) -> [s, out]                        *)
@@ -317,12 +321,12 @@ Write(s, o, v) ==
     LET r == RegOf(o)
         i == r.key[2]
     IN
-    CASE r.k = "store" -> Ok([s EXCEPT ![CellK(o)] = v])
+    CASE r.k = "store" -> Ok(CellSet(s, o, v))
       [] r.k = "const" -> Ok(s)
       [] r.k = "ro"    -> Ok(s)
       [] r.k = "ref"   -> Ok([s EXCEPT ![r.key] = v])
       [] r.k = "bits"  -> LET a == ApplySlots(s, r.slots, 1, v)       \* then *storage = value
-                          IN  IF a.out = "ok" THEN Ok([a.s EXCEPT ![RawKey(a.s, o)] = v]) ELSE a
+                          IN  IF a.out = "ok" THEN Ok(RawSet(a.s, o, v)) ELSE a
       [] r.k = "win"   -> IF WinOk(s) THEN Ok([s EXCEPT ![ResKey(s, r.key)] = v]) ELSE Oob(s)
       [] r.k = "win_z" -> IF ~ WinOk(s) THEN Oob(s)                   \* Dma::SetZ: store, start on 0x40C0;
                           ELSE LET s1 == [s EXCEPT ![ResKey(s, r.key)] = v]   \* DoDma ends with IRQ 15
@@ -336,7 +340,7 @@ Write(s, o, v) ==
                                                                ELSE SigOf(sem, s[FD("mask")])])
       [] r.k = "sem_ack" -> LET sem == AndNot(s[FC("sem")], v)         \* Apbp::ClearSemaphore (from_cpu)
                             IN  Ok([s EXCEPT ![FC("sem")] = sem, ![FC("signal")] = SigOf(sem, s[FC("mask")])])
-      [] r.k = "seox"  -> Ok([s EXCEPT ![CellK(o)] = v])
+      [] r.k = "seox"  -> Ok(CellSet(s, o, v))
       [] r.k = "icu_ack"  -> Ok([s EXCEPT ![ReqK] = AndNot(s[ReqK], v)])
       [] r.k = "icu_trig" -> Ok(Raise(s, v))
       [] r.k = "bt_send"  -> IF s[K("bt", i, "qlen")] = 16 THEN Ok(s)  \* overrun: dropped
@@ -359,17 +363,17 @@ Read(s, o) ==
     LET r == RegOf(o)
         i == r.key[2]
     IN
-    CASE r.k = "store" -> s[CellK(o)]
+    CASE r.k = "store" -> CellGet(s, o)
       [] r.k = "const" -> r.key[2]
       [] r.k \in { "ro", "ref" } -> s[r.key]
       [] r.k = "bits"  -> IF o = \h1DA /\ ~ WinOk(s) THEN OOB
-                          ELSE OverlaySlots(s, r.slots, 1, s[RawKey(s, o)])
+                          ELSE OverlaySlots(s, r.slots, 1, RawGet(s, o))
       [] r.k \in { "win", "win_z" } -> IF WinOk(s) THEN s[ResKey(s, r.key)] ELSE OOB
       [] r.k = "reply" -> s[FD(Dn("data", i))]              \* PeekData
       [] r.k = "cmd"   -> s[FC(Dn("data", i))]              \* RecvData (see ReadEffect)
       [] r.k = "sem_set" -> s[FD("sem")]
       [] r.k = "seox"  -> \hFFFF
-      [] r.k = "bt_send" -> s[CellK(o)]                     \* never written by anything: 0
+      [] r.k = "bt_send" -> CellGet(s, o)                   \* never written by anything: 0
       [] r.k \in { "timer_ew", "sem_ack", "icu_ack", "icu_trig", "bt_flush" } -> 0
 
 \* the state after MMIORegion::Read(o): only CMDx (RecvData) clears its ready flag
@@ -456,7 +460,7 @@ ReadCoupled == { <<c, st>> : c \in CmdOffs, st \in { \hD6, \hD8 } }
 \* MMIO window relocation (0x11E) and ZPAGE (0x112) change no read-back; they change which guest
 \* addresses reach the register file (InWindow / GuestBlocked).
 
-Watch == DocOffs \cup (IF AllCells THEN {} ELSE SampleOffs)
+Watch == DocOffs \cup SampleOffs
 
 \* (i) read-back
 ReadBackAt(s, A, v) ==
@@ -480,7 +484,7 @@ Touches(A) == LET k == RegOf(A).k  d == RegOf(A).key[1] IN
     ELSE { "cell" }
 HiddenFrameAt(s, A, v) ==
     LET w == Write(s, A, v) IN
-    \A k \in DOMAIN s : w.s[k] # s[k] =>
+    \A k \in DOMAIN w.s : w.s[k] # (IF k \in DOMAIN s THEN s[k] ELSE 0) =>
         /\ w.s[k] \in 0..65535
         /\ k[1] \in Touches(A)
         /\ k[1] = "timer" => k[2] = (IF A >= \h30 THEN 1 ELSE 0)
